@@ -82,8 +82,11 @@ class TiledChoice(Harness):
         from pybrops.core.random.sampling import tiled_choice
         n = self.params["n"]
         a = numpy.arange(10, 10 + n)
-        out = tiled_choice(a, self.params["size"], replace=False, p=None, rng=inp["rng"])
-        return dict(out=out)
+        a0 = a.copy()
+        # optionally a (positive) weight vector for the remainder draw: balance and "without replacement" must hold all the same
+        p = None if not self.params.get("weighted") else numpy.array([0.5, 0.25, 0.125, 0.0625, 0.0625][:n]) / sum([0.5, 0.25, 0.125, 0.0625, 0.0625][:n])
+        out = tiled_choice(a, self.params["size"], replace=False, p=p, rng=inp["rng"])
+        return dict(out=out, a_unchanged=bool(numpy.array_equal(a, a0)))
 
     def check(self, P, inp, out):
         n = self.params["n"]
@@ -100,6 +103,7 @@ class TiledChoice(Harness):
             P.prove(c in (k // n, -(-k // n)), "every-option-used-floor-or-ceil(k/n)-times",
                     detail="option %d used %d times, k=%d n=%d" % (i, c, k, n))
         P.prove(all(10 <= v < 10 + n for v in vals), "draws-are-options")
+        P.prove(out["a_unchanged"], "option-array-untouched")
 
 
 class AxisShuffle(Harness):
@@ -212,6 +216,8 @@ def obligations(tier):
          [(1, 1), (1, 3), (2, 1), (2, 2), (2, 3), (2, 5), (3, 2), (3, 3), (3, 4), (3, 5), (4, 2), (4, 5), (2, [2, 2]), (3, [2, 2]), (3, [1, 2])]
     for n, k in tc:
         obs.append(TiledChoice(n=n, size=k))
+    for n, k in ([(3, 5), (3, 3)] if tier == "quick" else [(3, 5), (4, 6), (3, 2), (3, 3), (4, 7)]):
+        obs.append(TiledChoice(n=n, size=k, weighted=True))
     ax = [((2, 2), 0), ((2, 2), 1), ((2, 3), [0]), ((3, 2), 1), ((2, 2, 2), [1, 0])] if tier == "quick" else \
          [((2, 3, 2), [1, 0]), ((2, 2, 2), [2, 0]), ((2, 2, 2), [1, 0]), ((2, 2), 0), ((2, 2), 1), ((2, 3), 0), ((2, 3), 1), ((3, 2), 0), ((3, 2), 1), ((2, 2), [0, 1]), ((2, 2, 2), 0), ((2, 2, 2), [0, 1]), ((2, 2, 2), 1), ((2, 3, 2), 2)]
     for shp, axis in ax:
@@ -227,6 +233,11 @@ def obligations(tier):
             h = OutcrossShuffle(shape=[4, 2], nid=2, prefix=pre, inductive=True)
             h.weight = 100
             obs.append(h)
+    # two crosses of four parents: exchanges between a late column of one cross and an early column of the next must be tried
+    for pre in ([[0, 1, 2, 2, 3, 4, 0, 1]] if tier == "quick" else [[0, 1, 2, 2, 3, 4, 0, 1], [0, 0, 1, 2, 1, 2, 3, 3], [0, 1, 1, 0, 2, 2, 3, 3]]):
+        h = OutcrossShuffle(shape=[2, 4], nid=5, prefix=pre, inductive=True)
+        h.weight = 100
+        obs.append(h)
     if tier == "thorough":
         # 4x2 tables over two ids, table space split by the first four cells
         for pre in itertools.product(range(2), repeat=4):
